@@ -64,6 +64,8 @@ def check_one(src: str, mode: str = "exec", variant: str = "shipped", py_version
             src = src.replace("\r\n", "\n").replace("\r", "\n")
     else:
         o = impl.parse(src, mode, py_version=py_version, variant=variant)
+    if o["k"] == "exc" and o.get("cls") not in ("RecursionError",):
+        return {"kind": "malformed-error", "problems": [f"raised {o.get('cls')} instead of a SyntaxError: {str(o.get('msg'))[:80]}"], "error": {"cls": o.get("cls"), "msg": o.get("msg")}}
     if o["k"] != "err":
         return {"skip": o["k"]}
     probs = error_problems(src, o)
